@@ -137,6 +137,14 @@ def boxes(E, cls):
             "C03:%s.Box:not-equal-to-wrapping-diagram" % cls, info=repr(x))
     E.check(bool(eval(repr(wrapped), ns) == wrapped),
             "C03:%s:one-box-diagram-repr" % cls)
+    if cls != 'cat':
+        # ... but not a one-box diagram with extra wires around the box
+        extra = T('extra')
+        if len(extra):
+            for whiskered in (x @ Id(extra), Id(extra) @ x):
+                E.check(not bool(x == whiskered) and not bool(whiskered == x),
+                        "C03:%s.Box:equal-to-whiskered-diagram" % cls,
+                        info="%r vs %r" % (x, whiskered))
     # functor lookup through an equal key
     if eqb and not sa[4]:
         F = mod.Functor(ob=lambda t: t, ar={x: x})
